@@ -1,4 +1,7 @@
-import Sif.Proofs.C10Lp
+import Sif.Proofs.C10Chain
+import Sif.Proofs.C10Tie
+import Sif.Generated.Validate
+set_option exponentiation.threshold 400
 /-
   C10 — Block processing never panics for user histories or accepted policy settings.
   Property theorems only (helper lemmas live in Sif/Proofs/C10*.lean).
@@ -40,7 +43,98 @@ theorem accepted_ModifyLPRates_safe (m : MsgModifyLPRates) (c : Ctx) (s : StVals
   rw [LpInv_iff]
   exact ⟨a, by simp only [applyModifyLPRates]; omega, b⟩
 
+/-! ### the ratio-shifting policy (PMTP) and the whole clp BeginBlocker -/
+
+/-- `hooks_total` for the clp BeginBlocker: under the invariants (`LpInv`, `PmtpInvP`), at a height
+    inside the envelope, with pool depths that fit an sdk.Uint and — on the block that starts a
+    policy — a `math.Pow` result within the stated accuracy, the hook returns normally and both
+    invariants hold for the next height.  Every pool state, every rate, every period length. -/
+theorem beginBlock_total (s : BState) (env : BEnv) (hlp : LpInv s.lp = true) (hpm : PmtpInvP s.pm env.h)
+    (henv : EnvOKP s.pm env) (hpools : PoolsOKP env.pools) :
+    ∃ o, beginBlock s env = .ok o ∧ LpInv o.st.lp = true ∧ PmtpInvP o.st.pm (env.h + 1) :=
+  let ⟨o, h1, h2, h3, _⟩ := beginBlock_ok s env hlp hpm henv hpools
+  ⟨o, h1, h2, h3⟩
+
+/-- … hence any history of blocks (consecutive heights inside the envelope, arbitrary permissionless
+    traffic in between) runs without a panic: in particular one full policy period and beyond. -/
+theorem policy_period_total (s : BState) (h : Int) (blocks : List (BEnv × Nat))
+    (hlp : LpInv s.lp = true) (hpm : PmtpInvP s.pm h) (hb : BlocksOKP s.pm h blocks) :
+    ∃ s', runBlocks s blocks = .ok s' :=
+  runBlocks_ok blocks s h hlp hpm hb
+
+/-- `accepted_admin_safe` for `UpdatePmtpParams` (after repair F12): a message that passes the
+    validation clauses, submitted in block `c.height` (whose BeginBlocker already ran), leaves a state
+    satisfying the invariant for the next block — so by `policy_period_total` the whole policy runs
+    without a panic.  Hypotheses besides acceptance: the fields are int64s, the context agrees with
+    the state (`hst`, `hwin`), and the envelope fact the message does not control: the
+    inter-policy rate is below 2^250·10^-18. -/
+theorem accepted_UpdatePmtpParams_safe (m : MsgUpdatePmtpParams) (c : Ctx) (s : StVals) (pm : Pmtp)
+    (hacc : acceptsUpdatePmtpParams m c s = true)
+    (hwt1 : -two63 ≤ m.start) (hwt2 : m.end_ < two63) (hh0 : 0 ≤ c.height)
+    (hst : s.gov = pm.gov) (hwin : c.insideWindow = insideOf pm c.height)
+    (hinv : PmtpInvP pm (c.height + 1)) (henv : pm.inter.i ≤ B1) :
+    PmtpInvP (applyUpdatePmtpParams m pm) (c.height + 1) :=
+  UpdatePmtpParams_inv m c s pm hacc hwt1 hwt2 hh0 hst hwin hinv henv
+
+/-- `accepted_admin_safe` for `ModifyPmtpRates` (after repair F3): new rates only take effect outside
+    a policy window and an accepted running rate is in (−1, 10^6]; `EndPolicy` closes the window at
+    the current block.  The invariant survives in every case. -/
+theorem accepted_ModifyPmtpRates_safe (m : MsgModifyPmtpRates) (c : Ctx) (s : StVals) (pm : Pmtp)
+    (hacc : acceptsModifyPmtpRates m c s = true) (hwin : c.insideWindow = insideOf pm c.height)
+    (hinv : PmtpInvP pm (c.height + 1)) :
+    PmtpInvP (applyModifyPmtpRates m c pm) (c.height + 1) :=
+  ModifyPmtpRates_inv m c s pm hacc hwin hinv
+
+/-! ### tie 1: the validation the CODE has (regenerated from the source on every run) contains every
+    clause the theorems above rely on — so "the code accepts" implies the `accepts…` hypotheses -/
+
+theorem tie_modifyPmtpRates : covers Generated.Validate.modifyPmtpRates Req.modifyPmtpRates = true := by decide
+theorem tie_updatePmtpParams : covers Generated.Validate.updatePmtpParams Req.updatePmtpParams = true := by decide
+theorem tie_modifyLPRates : covers Generated.Validate.modifyLPRates Req.modifyLPRates = true := by decide
+theorem tie_updateLPParams : covers Generated.Validate.updateLPParams Req.updateLPParams = true := by decide
+theorem tie_addRewardPeriod : covers Generated.Validate.addRewardPeriod Req.addRewardPeriod = true := by decide
+theorem tie_addLppd : covers Generated.Validate.addLppd Req.addLppd = true := by decide
+theorem tie_updateSwapFee : covers Generated.Validate.updateSwapFee Req.updateSwapFee = true := by decide
+
+/-- code accepts ⇒ model accepts, for every message, context and state (one direction only: the code
+    may check more) -/
+theorem code_accepts_imp_accepts (e : Env) :
+    (acceptsAll e Generated.Validate.modifyPmtpRates = true → acceptsAll e Req.modifyPmtpRates = true) ∧
+    (acceptsAll e Generated.Validate.updatePmtpParams = true → acceptsAll e Req.updatePmtpParams = true) ∧
+    (acceptsAll e Generated.Validate.modifyLPRates = true → acceptsAll e Req.modifyLPRates = true) ∧
+    (acceptsAll e Generated.Validate.updateLPParams = true → acceptsAll e Req.updateLPParams = true) ∧
+    (acceptsAll e Generated.Validate.addRewardPeriod = true → acceptsAll e Req.addRewardPeriod = true) ∧
+    (acceptsAll e Generated.Validate.addLppd = true → acceptsAll e Req.addLppd = true) ∧
+    (acceptsAll e Generated.Validate.updateSwapFee = true → acceptsAll e Req.updateSwapFee = true) :=
+  ⟨covers_sound e _ _ tie_modifyPmtpRates, covers_sound e _ _ tie_updatePmtpParams, covers_sound e _ _ tie_modifyLPRates,
+   covers_sound e _ _ tie_updateLPParams, covers_sound e _ _ tie_addRewardPeriod, covers_sound e _ _ tie_addLppd,
+   covers_sound e _ _ tie_updateSwapFee⟩
+
+/-- the Boolean the driver evaluates is the theorem's hypothesis -/
+theorem PmtpInv_iff (pm : Pmtp) (h : Int) : PmtpInv pm h = true ↔ PmtpInvP pm h := by
+  unfold PmtpInv; exact decide_eq_true_iff
+
 /- non-vacuity -/
+def pm0 : Pmtp := ⟨0, 0, 1, Dec.zero, 0, 0, Dec.zero, Dec.zero, Dec.zero⟩          -- genesis
+def pm1 : Pmtp := ⟨5, 8, 2, ⟨10 ^ 17⟩, 0, 0, Dec.zero, ⟨5 * 10 ^ 17⟩, ⟨5 * 10 ^ 17⟩⟩   -- policy scheduled: blocks 5..8, rGov 0.1
+def msg1 : MsgUpdatePmtpParams := ⟨.val ⟨10 ^ 17⟩, 2, 5, 8⟩
+example : PmtpInv pm0 1 = true := by decide +kernel
+example : acceptsUpdatePmtpParams msg1 ⟨3, false, false, false⟩ {} = true := by decide +kernel
+example : PmtpInv (applyUpdatePmtpParams msg1 pm0) 4 = true := by decide +kernel
+example : PmtpInv pm1 4 = true := by decide +kernel
+-- the block rate math.Pow gives for (1.1)^(2/4) - 1 satisfies the accuracy assumption
+example : PowAccurate pm1 ⟨48808848170151541⟩ = true := by decide +kernel
+example : EnvOK pm1 ⟨5, some ⟨48808848170151541⟩, [⟨10 ^ 24, 10 ^ 12, 0, 0, true, 6⟩]⟩ = true := by decide +kernel
+example : acceptsModifyPmtpRates ⟨.empty, .val ⟨-5 * 10 ^ 17⟩, false⟩ ⟨3, false, false, false⟩ {} = true := by decide +kernel
+/- negative witnesses (the defects on the unrepaired tree) -/
+-- F3: running rate −1 ⇒ big.Rat division by zero in PolicyRun
+example : (beginBlock ⟨⟨false, 0, 0, 1⟩, { pm0 with running := ⟨-(10 ^ 18)⟩ }⟩ ⟨2, none, [⟨10 ^ 24, 10 ^ 12, 0, 0, true, 6⟩]⟩).toBool = false := by
+  decide +kernel
+-- F12: governance rate −1 ⇒ block rate −1 ⇒ running rate −1 on the first block of the policy
+example : (beginBlock ⟨⟨false, 0, 0, 1⟩, { pm1 with gov := ⟨-(10 ^ 18)⟩, inter := Dec.zero }⟩ ⟨5, some ⟨-(10 ^ 18)⟩, [⟨10 ^ 24, 10 ^ 12, 0, 0, true, 6⟩]⟩).toBool = false := by
+  decide +kernel
+-- F12: NaN ⇒ NewDecFromStr fails ⇒ panic(err)
+example : (beginBlock ⟨⟨false, 0, 0, 1⟩, { pm1 with gov := ⟨-2 * 10 ^ 18⟩ }⟩ ⟨5, none, []⟩).toBool = false := by decide +kernel
 example : LpInv ⟨true, 1000, 7, 3⟩ = true := by decide
 example : lpUpdate ⟨true, 1000, 7, 3⟩ = .ok ⟨true, 1000, 340, 3⟩ := by decide
 example : acceptsUpdateLPParams ⟨1000, 3, true⟩ default {} = true := by decide
